@@ -117,6 +117,19 @@ def supervisor(chk):
             ok = False
             break
         jargs = joins[-1][1][1][2]
+        jkw = dict(joins[-1][1][1][3])
+        if joins[-1][1][1][1] == GATHER and jkw.get("return_exceptions") != ("const", True):
+            chk.bad(
+                rule,
+                name,
+                "the final join is gather(...) without return_exceptions=True: it ends with the FIRST failed runner task (close-all runs exactly when one has failed) instead of waiting for all of them, so run() ends while other runners are still unwinding, and the statements after it are skipped",
+                node=close.node,
+                stmt="join-first-exception",
+            )
+            ok = False
+        if joins[-1][1][1][1] == ("glob", "ext:asyncio.wait") and "return_when" in jkw and jkw["return_when"] != ("glob", "ext:asyncio.ALL_COMPLETED"):
+            chk.bad(rule, name, "the final join is asyncio.wait(..., return_when=%s): it does not wait for all runner tasks" % show(jkw["return_when"]), node=close.node, stmt="join-first-completed")
+            ok = False
         param = ("sym", close.params()[0]) if close.params() else None
         if not any(a == ("star", param) or a == param for a in jargs):
             chk.bad(rule, name, "the final join waits for %s instead of all runner tasks" % [show(a) for a in jargs], node=close.node, stmt="join-args")
@@ -531,8 +544,44 @@ def stop_chain(chk):
             if res[0][1][1][1] != sub[0]:
                 chk.bad(rule, bstop.qual, "stop does not wait for the submitted close", node=bstop.node, stmt="stop-wait")
                 ok = False
+    # the writers of the flag stop() reads: cleared before the payloads are managed, set again on EVERY exit of run()
+    brun = prog.method(BASE, "run")
+    EV = ("attr", SELF, slots.stopped_event(prog))
+    MANAGE = ("attr", SELF, "manage_payloads")
+    n_paths = 0
+    for label in (None, "AnyException", "OtherBase", "KeyboardInterrupt", "asyncio.CancelledError"):
+
+        def hook(it, path, ct, node, label=label):
+            if label is not None and ct[0] == "call" and ct[1] == MANAGE:
+                return [("raise", REPRESENTATIVES[label])]
+            return None
+
+        for o in Interp(prog, brun, call_hook=hook, inline=lambda f, ct: f.cls is not None and not f.is_async and f.name not in ("stop",)).run():
+            evs = o.path.events
+            man = [i for i, e in enumerate(evs) if e[0] == "call" and e[1][1] == MANAGE]
+            if not man:
+                continue
+            n_paths += 1
+            chk.count()
+            flips = [(i, e[1][1][2]) for i, e in enumerate(evs) if e[0] == "call" and e[1][1][0] == "attr" and e[1][1][1] == EV and e[1][1][2] in ("set", "clear")]
+            before = [k for i, k in flips if i < man[0]]
+            if not before or before[-1] != "clear":
+                chk.bad(rule, brun.qual, "run() does not clear the stopped flag before managing payloads: stop() takes the running runner for stopped and returns without closing it, so shutdown never ends the run", node=brun.node, stmt="stopped-not-cleared")
+                ok = False
+            if not flips or flips[-1][1] != "set" or flips[-1][0] < man[0]:
+                chk.bad(
+                    rule,
+                    brun.qual,
+                    "run() can end (%s) without setting the stopped flag again: a later stop() / shutdown() submits aclose() to an event loop that is already gone and raises or blocks forever"
+                    % ("manage_payloads raising %s" % label if label else "normally"),
+                    node=brun.node,
+                    stmt="stopped-not-set",
+                    input=label or "normal end",
+                )
+                ok = False
+    chk.floor(rule + ".run-exits", n_paths, 5)
     if ok:
-        chk.ok(rule, stop.qual, "stop() reaches every runner; each submits aclose() to the loop thread-safely and waits, unless already stopped", node=stop.node)
+        chk.ok(rule, stop.qual, "stop() reaches every runner; each submits aclose() to the loop thread-safely and waits, unless already stopped; run() clears the stopped flag before managing payloads and sets it on every exit", node=stop.node)
 
 
 def run(chk):
